@@ -165,7 +165,7 @@ def replay_estimators(ode, TT, cfg, isl):
          'trapezoidal_rule': ode.errors_trapezoidal}[cfg['scheme']]
     snaps = snapshot([A] + xs)
     try:
-        got = f(A, xs, [h, h])
+        got = f(A, xs, [h, h / 2])
     except Exception as e:
         return [('estimator:%s:exception:%s' % (cfg['scheme'], type(e).__name__), repr(e))]
     out = []
